@@ -27,6 +27,7 @@ def setup(symbolic):
         from vxlib.symx import shims, loader
         loader.install()
         shims.install()
+    sweep.snapshot_state()
 
 
 def bounds(tier):
@@ -98,14 +99,17 @@ def run_history(ctx, st):
     name = st['name']
     a = [ctx.int('a%d' % i) for i in range(4)]
     r = [ctx.int('r%d' % i) for i in range(4)]
+    sweep.reset_state()                      # what a fresh interpreter starts from
     o1 = sweep.run_window(ctx, name, a, r)
     if o1.kind != 'text':
         ctx.reach('outcome:' + o1.kind); ctx.reach(); return
+    sweep.reset_state()
     _, by_name = sweep.codes()
     for i, pr in enumerate(PROBES):
         if pr in by_name and pr != name:
             sweep.run_window(ctx, pr, [3, 0, 0, 0], r)
     o2 = sweep.run_window(ctx, name, a, r)
+    sweep.reset_state()
     L = 'C10/%s' % name
     if o2.kind != 'text':
         ctx.check(L + '/history-independent', False, 'second decoding: ' + o2.kind)
